@@ -119,3 +119,15 @@ Proof.
   pose proof (split_block_spec _ _ _ _ _ _ E1) as (-> & _ & _ & N1 & _).
   pose proof (split_block_spec _ _ _ _ _ _ E2) as (-> & _). lia.
 Qed.
+
+(* ---- the deletion of a whole block: remove_block, then the bytes ---- here the side conditions are facts about the INPUT (the block
+        is older than the counter, its successor in the order list is another live block, it does not both call and return) *)
+Theorem Closed_whole_deletion s b tp deleted s1 bi off len :
+  Closed s -> live s (NB b) -> is_code s b = true -> (b < next s)%nat ->
+  (forall n, snd (adjacent_blocks s b) = Some n -> live s (NB n) /\ n <> b) ->
+  ((exists e, In e (out_edges s b) /\ is_call e = true) -> ~ has_ret s b) ->
+  remove_block s b tp = Ok (deleted, s1) ->
+  Closed (edit_byte_interval s1 bi off len [] [b]).
+Proof.
+  intros HC Hb Hc Hlt Hnx Hcr E. apply Closed_edit_byte_interval. eapply Closed_remove_block; eauto.
+Qed.
